@@ -488,7 +488,7 @@ where
 }
 
 /// primitive cube root of unity of Fq, embedded: 2^((q-1)/3) (2 is not a cube mod q)
-fn beta_in<F: Fld>() -> F {
+pub fn beta_in<F: Fld>() -> F {
     let e = (q() - Z::one()) / Z::from(3u32);
     let mut g = 2u32;
     let b = loop {
